@@ -23,6 +23,8 @@ func (s *Server) VerifUnsubscribe(v *VerifSub) { s.unsubscribe(v.s) }
 
 func (v *VerifSub) Cap() int { return cap(v.s.incomingBlock) }
 
+func (v *VerifSub) Len() int { return len(v.s.incomingBlock) }
+
 // TryRecv is a non-blocking receive: (block, open, empty).
 func (v *VerifSub) TryRecv() (*pbbstream.Block, bool, bool) {
 	select {
